@@ -137,6 +137,11 @@ func init() {
 			in.p.mapFixed = a[0].(*Term).Bool()
 			return nil
 		},
+		"zzvExactFloatsOnly": func(in *Interp, a []Value) Value {
+			// keep constant selections such as ite(c,1.0,0.0) in exact IEEE arithmetic (no dyadic promotion)
+			in.ts.noPromote = true
+			return nil
+		},
 		"zzvBound": func(in *Interp, a []Value) Value {
 			in.p.run.mu.Lock()
 			in.p.run.Bounds[str(a[0])] = str(a[1])
@@ -164,6 +169,15 @@ func init() {
 		},
 		"zzvUFIntF64": func(in *Interp, a []Value) Value {
 			return in.ts.UF(str(a[0]), SF64, a[1].(*Term))
+		},
+		"zzvUFF64F64": func(in *Interp, a []Value) Value {
+			return in.ts.UF(str(a[0]), SF64, a[1].(*Term))
+		},
+		"zzvUFF64MInt": func(in *Interp, a []Value) Value {
+			lo, hi := cInt(in, a[2], "lo"), cInt(in, a[3], "hi")
+			t := in.ts.intern(&Term{op: OpUF, sort: SDy, name: str(a[0]), args: []*Term{a[1].(*Term)}, scale: 0, bnd: math.Max(math.Abs(float64(lo)), math.Abs(float64(hi)))})
+			in.p.Assume(in.ts.And(in.ts.SLe(in.ts.BV(64, uint64(lo)), t), in.ts.SLe(t, in.ts.BV(64, uint64(hi)))))
+			return t
 		},
 		"zzvUFF64Int": func(in *Interp, a []Value) Value {
 			return in.ts.UF(str(a[0]), SBV64, a[1].(*Term))
